@@ -106,7 +106,7 @@ def instances():
                    unwindset=uw(n, items=items, n2=n2), **kw))
     C6 = ("C06", "C02", "C18")
     T("c06_find_n4", "c06::find::<4>(SYM, SYM)", 4, props=C6, share_quick=('C18', 'C02'))
-    T("c06_find_n8", "c06::find::<8>(SYM, SYM)", 8, props=C6, share_quick=('C18', 'C02'))
+    T("c06_find_n8", "c06::find::<8>(SYM, SYM)", 8, props=C6, share_quick=('C18',))
     T("c06_find_n16", "c06::find::<16>(SYM, SYM)", 16, be=G8, props=C6)
     T("c06_find_n16s", "c06::find::<16>(SYM, SYM)", 16, be=S16, tier="thorough", props=C6)
     T("c06_find_n32", "c06::find::<32>(SYM, SYM)", 32, tier="thorough", props=C6)
@@ -119,8 +119,8 @@ def instances():
     T("c06_insert_n16", "c06::insert::<16, 16>(6, 4)", 16, be=G8, items=6, props=C6)
     T("c06_entry_n16", "c06::entry::<16, 16>(6, 4)", 16, be=G8, items=6, timeout=1800)
     T("c06_insert_n16_grow", "c06::insert_full::<16, 32>(8, 6)", 16, be=G8, n2=32, items=8, props=C6, tier="thorough", timeout=3600)
-    T("c06_remove_n4", "c06::remove_reinsert::<4>(SYM, SYM, false)", 4, props=C6, covers="some", share_quick=('C02',))
-    T("c06_remove_n8", "c06::remove_reinsert::<8>(SYM, SYM, false)", 8, props=C6, covers="some", share_quick=('C18', 'C02'))
+    T("c06_remove_n4", "c06::remove_reinsert::<4>(SYM, SYM, false)", 4, props=C6, covers="some")
+    T("c06_remove_n8", "c06::remove_reinsert::<8>(SYM, SYM, false)", 8, props=C6, covers="some", share_quick=('C18',))
     T("c06_remove_reinsert_n8", "c06::remove_reinsert::<8>(SYM, SYM, true)", 8, props=C6, covers="some", be_quick=G8)
     T("c06_remove_n16", "c06::remove_reinsert::<16>(SYM, SYM, false)", 16, be=G8, props=C6, timeout=1800)
     T("c06_remove_reinsert_n16", "c06::remove_reinsert::<16>(SYM, SYM, true)", 16, be=G8, props=C6, timeout=1800, covers="some")
@@ -335,7 +335,7 @@ def instances():
     for op, on in enumerate(("or", "and", "xor", "sub")):
         # one element in B: a second insert would re-open every resize path (growth_left symbolic after the first)
         T("c07_assign_%s_n8_n4" % on, "c07::assign_ops::<8, 4>(2, 1, %d)" % op, 8, be=G8, props=("C07",), timeout=1500)
-        T("c07_assign_%s_n8_n4_b3" % on, "c07::assign_ops::<8, 4>(2, 3, %d)" % op, 8, be=G8, props=("C07",), timeout=10800, tier="quick" if op in (1, 3) else "thorough", mem_gb=14 if op in (1, 3) else 40)
+        T("c07_assign_%s_n8_n4_b3" % on, "c07::assign_ops::<8, 4>(2, 3, %d)" % op, 8, be=G8, props=("C07",), timeout=10800, tier="thorough", mem_gb=40)
         T("c07_assign_%s_n8_n4_big" % on, "c07::assign_ops::<8, 4>(4, 2, %d)" % op, 8, be=G8, props=("C07",), timeout=10800, tier="quick" if op == 3 else "thorough", mem_gb=14 if op == 3 else 40)
         T("c07_ref_%s_n4_n4" % on, "c07::ref_ops::<4, 4>(1, 1, %d)" % op, 8, n2=8, be=G8, props=("C07",), timeout=1800, tier="thorough")
     for op, on in enumerate(("insert", "replace", "take", "get_or_insert", "get_or_insert_with", "remove", "get_or_insert_with_nonequiv", "entry", "contains")):
@@ -343,7 +343,7 @@ def instances():
           allow_fail=[r"^assertion\|hashbrown::HashSet::<[^|]*>::get_or_insert_with::<[^|]*\|", r"^assertion\|hashbrown::set::HashSet::<[^|]*>::get_or_insert_with::<[^|]*\|"] if op == 6 else [],
           tier="thorough" if on == "entry" else "quick", timeout=10800 if on == "entry" else 900, mem_gb=40 if on == "entry" else 14)
     T("c07_elem_replace_n16", "c07::elem_ops::<16, 16>(6, 4, 1)", 16, items=6, be=G8, props=("C07",), timeout=1800)
-    T("c07_elem_insert_n16", "c07::elem_ops::<16, 16>(6, 4, 0)", 16, items=6, be=G8, props=("C07",), timeout=1800)
+    T("c07_elem_insert_n16", "c07::elem_ops::<16, 16>(6, 4, 0)", 16, items=6, be=G8, props=("C07",), timeout=7200, tier="thorough")
     T("c07_elem_replace_n4_full", "c07::elem_ops::<4, 8>(3, 0, 1)", 4, n2=8, items=3, be=G8, props=("C07",))
     # ------------------------------------------------------------------ C11 clone / clone_from / ==
     T("c11_clone_n8", "c11::clone_step::<8>(true)", 8, props=("C11", "C03"), be_quick=G8)
@@ -414,7 +414,7 @@ def instances():
         "C12": ["c17_layout_all", "c06_rehash_ct8_b1_try"],
         "C03": ["c04_clone_from_panic_4_4", "c11_clone_from_8_4", "c19_par_drain_producer_n8", "c04_drop_panic_retain_n8",
                 "c04_rehash_hook_drop_n4", "c04_drop_panic_clear_n8"],
-        "C02": ["c04_hasher_grow_nodrop_n8", "c05_insert_n8", "c03_drop_n8", "c17_table_layout_types",
+        "C02": ["c03_drop_n8", "c17_table_layout_types",
                 "c04_rehash_hook_drop_n4", "c04_drop_panic_drain_n8"],
         "C11": ["c07_pred_eq_n4_n4", "c04_clone_from_panic_4_4"],
         "C01": ["c06_rehash_ct8_b1", "c14_map_occ_remove_n8", "c06_base_cap3", "c14_map_occ_replace_entry_with_n8", "c14_map_occ_and_replace_entry_with_n8",
